@@ -324,7 +324,7 @@ def shard_d1(acc, shard, nshards, params):
 def shard_d1u(acc, shard, nshards, params):
     n, acts = params
     u = f1(n)
-    ars = [None] + [(s, e) for s in range(n) for e in range(s + 1, n + 1)]
+    ars = [None] + [(s, e) for s in range(n) for e in range(s + 1, n + 1)] + [(-2, e) for e in (0, 1)] + [(-1, n)]
 
     def gen():
         for ar in ars:
